@@ -84,15 +84,20 @@ class Run:
         for c in all_c:
             if c.unmodelled and c.status != 'reproduced':
                 c.status = 'inconclusive'
-        seen_roles = set()
+        seen_roles = set(); seen_inc = set()
         os.makedirs(os.path.join(VERIF, 'evidence', 'replays'), exist_ok=True)
+        confirmed = {(c.family, c.role) for c in all_c if c.status == 'reproduced'}
         for c in all_c:
+            if c.status == 'not-reproduced' and (c.family, c.role) in confirmed:
+                continue            # the same failure (family, role) is confirmed natively by a sibling witness and reported once
             if c.status == 'not-reproduced':
                 broken.append(f'counterexample of {c.family} did not reproduce natively: {c.text}')
                 continue
             if c.status == 'inconclusive':
                 self.inconclusive.append(f'{c.family}: {c.text} (unmodelled: {c.unmodelled})')
-                print(f'INCONCLUSIVE property={self.prop} family={c.family} unmodelled={c.unmodelled}')
+                ik = (c.family, str(c.unmodelled))
+                if ik not in seen_inc:
+                    seen_inc.add(ik); print(f'INCONCLUSIVE property={self.prop} family={c.family} unmodelled={c.unmodelled}')
                 continue
             key = (c.family, c.role)
             if key in seen_roles:
